@@ -32,13 +32,9 @@ def guard_hyps(idx, fi, node):
     asserts that precede it at function level, and the rule's cond"""
     hyp = set()
     node = getattr(node, "_origin", node)  # df.effective_return stands for the original Return statement
-    child = node
-    p = getattr(node, "_parent", None)
-    while p is not None and p is not fi.node:
-        if isinstance(p, ast.If) and child in p.body:
-            hyp |= isa_hyp(idx, fi, p.test)
-        child = p
-        p = getattr(p, "_parent", None)
+    for t, pol in df.branch_conditions(node, fi.node):
+        if pol:
+            hyp |= isa_hyp(idx, fi, t)
     for st in fi.node.body:
         if getattr(st, "lineno", 0) >= getattr(node, "lineno", 0):
             break
